@@ -17,6 +17,7 @@ import (
 
 	"gorm.io/gorm"
 	"gorm.io/gorm/clause"
+	"gorm.io/gorm/logger"
 
 	"verifharness/gdb"
 	"verifharness/lib"
@@ -73,6 +74,12 @@ type Cel struct {
 	Kind string `json:"kind"` // where | attrs | assign | session | ctx
 	Cond *Cond  `json:"cond,omitempty"`
 	Args []Arg  `json:"args,omitempty"`
+	// session: which option the Session call carries ("" = &Session{}); every option listed must leave the
+	// result alone.  ctx: "" WithContext | session_ctx Session{Context} | prepare Session{PrepareStmt} (these
+	// clone the statement at once)
+	Opt string `json:"opt,omitempty"`
+	// where: "" Where(...) | scope: Scopes(func(d) { return d.Where(...) })
+	Via string `json:"via,omitempty"`
 }
 type Fin struct {
 	Kind   string   `json:"kind"` // save | create_oc | foi | foc
@@ -86,7 +93,9 @@ type Fin struct {
 	OCWhere  *int64 `json:"oc_where,omitempty"`
 	OCTarget *int64 `json:"oc_target,omitempty"`
 	Inline []Cond   `json:"inline,omitempty"`
-	Vals   []Rec    `json:"vals,omitempty"` // save_slice: Save(&[]Acct{...})
+	Vals   []Rec    `json:"vals,omitempty"` // save_slice: Save(&[]Acct{...}); create_oc_slice: Create(&[]Acct{...})
+	PtrPtr bool     `json:"ptrptr,omitempty"` // save: Save(&ptr)
+	Batch  int      `json:"batch,omitempty"`  // create_oc_slice: CreateInBatches(&slice, n); 0 = Create(&slice)
 	Omits  []string `json:"omits,omitempty"` // save_omit: Omit(cols...).Save(&v), columns in either spelling
 	OmitSpell string `json:"omit_spell,omitempty"` // db | field
 }
@@ -288,15 +297,46 @@ func run(e *env, in Input) Obs {
 		switch c.Kind {
 		case "where":
 			a := condArg(*c.Cond)
-			tx = tx.Where(a[0], a[1:]...)
+			if c.Via == "scope" {
+				tx = tx.Scopes(func(d *gorm.DB) *gorm.DB { return d.Where(a[0], a[1:]...) })
+			} else {
+				tx = tx.Where(a[0], a[1:]...)
+			}
 		case "attrs":
 			tx = tx.Attrs(argList(c.Args)...)
 		case "assign":
 			tx = tx.Assign(argList(c.Args)...)
 		case "session":
-			tx = tx.Session(&gorm.Session{})
+			cfg := &gorm.Session{}
+			switch c.Opt {
+			case "skip_default_tx":
+				cfg.SkipDefaultTransaction = true
+			case "query_fields":
+				cfg.QueryFields = true
+			case "batch_size":
+				cfg.CreateBatchSize = 100
+			case "logger":
+				cfg.Logger = logger.Discard
+			case "now_func":
+				cfg.NowFunc = func() time.Time { return cur }
+			case "no_nested_tx":
+				cfg.DisableNestedTransaction = true
+			case "full_save_assoc":
+				cfg.FullSaveAssociations = true
+			case "propagate_unscoped":
+				cfg.PropagateUnscoped = true
+			}
+			tx = tx.Session(cfg)
 		case "ctx":
-			tx = tx.WithContext(context.WithValue(context.Background(), ctxMark{}, 1))
+			ctx := context.WithValue(context.Background(), ctxMark{}, 1)
+			switch c.Opt {
+			case "session_ctx":
+				tx = tx.Session(&gorm.Session{Context: ctx})
+			case "prepare":
+				tx = tx.Session(&gorm.Session{PrepareStmt: true})
+			default:
+				tx = tx.WithContext(ctx)
+			}
 		}
 	}
 	var inline []interface{}
@@ -308,7 +348,12 @@ func run(e *env, in Input) Obs {
 	switch in.Fin.Kind {
 	case "save":
 		dest = toAcct(*in.Fin.Val)
-		res = tx.Save(&dest)
+		if in.Fin.PtrPtr { // Save(&ptr): pointer to the pointer
+			p := &dest
+			res = tx.Save(&p)
+		} else {
+			res = tx.Save(&dest)
+		}
 	case "save_omit":
 		dest = toAcct(*in.Fin.Val)
 		var cols []string
@@ -317,6 +362,9 @@ func run(e *env, in Input) Obs {
 				c = fieldName[c]
 			}
 			cols = append(cols, c)
+		}
+		if in.Fin.OmitSpell == "comma" { // Omit("a,b"): one comma-separated string
+			cols = []string{strings.Join(cols, ",")}
 		}
 		res = tx.Omit(cols...).Save(&dest)
 	case "save_slice":
@@ -331,8 +379,10 @@ func run(e *env, in Input) Obs {
 		if len(sl) > 0 {
 			dest = sl[len(sl)-1]
 		}
-	case "create_oc", "create_u":
-		dest = toAcct(*in.Fin.Val)
+	case "create_oc", "create_u", "create_oc_slice":
+		if in.Fin.Val != nil {
+			dest = toAcct(*in.Fin.Val)
+		}
 		oc := clause.OnConflict{}
 		if in.Fin.Target {
 			oc.Columns = []clause.Column{{Name: "id"}}
@@ -354,7 +404,20 @@ func run(e *env, in Input) Obs {
 		if in.Fin.OCTarget != nil {
 			oc.TargetWhere = ageLt(*in.Fin.OCTarget)
 		}
-		res = tx.Clauses(oc).Create(&dest)
+		if in.Fin.Kind == "create_oc_slice" {
+			sl := make([]Acct, len(in.Fin.Vals))
+			for i, v := range in.Fin.Vals {
+				sl[i] = toAcct(v)
+			}
+			if in.Fin.Batch > 0 {
+				res = tx.Clauses(oc).CreateInBatches(&sl, in.Fin.Batch)
+			} else {
+				res = tx.Clauses(oc).Create(&sl)
+			}
+			dest = Acct{}
+		} else {
+			res = tx.Clauses(oc).Create(&dest)
+		}
 	case "foi":
 		res = tx.FirstOrInit(&dest, inline...)
 	case "foc":
@@ -456,7 +519,7 @@ func gFin(f Fin) string {
 		return lib.App("FSaveSlice", lib.ListOf(f.Vals, gRec))
 	case "save_omit":
 		return lib.App("FSaveOmit", lib.ListOf(f.Omits, func(c string) string { return gColName[c] }), gRec(*f.Val))
-	case "create_oc", "create_u":
+	case "create_oc", "create_u", "create_oc_slice":
 		rule := "RNothing"
 		switch f.Rule {
 		case "updates":
@@ -473,6 +536,9 @@ func gFin(f Fin) string {
 		if f.Kind == "create_u" {
 			return lib.App("FCreateU", rule, lib.Bool(f.Target), gRec(*f.Val))
 		}
+		if f.Kind == "create_oc_slice" {
+			return lib.App("FCreateOCSlice", rule, lib.Z(int64(f.Batch)), lib.ListOf(f.Vals, gRec))
+		}
 		return lib.App("FCreateOC", rule, gRec(*f.Val))
 	case "foi":
 		return lib.App("FInit", lib.ListOf(f.Inline, gCond))
@@ -482,7 +548,8 @@ func gFin(f Fin) string {
 func term(in Input, o Obs) string {
 	return lib.App("mk_case", lib.ListOf(in.Tbl, gRec), lib.Z(in.Now), lib.ListOf(in.Chain, gCel), gFin(in.Fin),
 		gRec(o.Ret), lib.ListOf(o.Rets, gRec), lib.Z(o.RA), lib.Bool(o.Err != ""), lib.Z(o.Writes), lib.ListOf(o.Tbl, gRec),
-		lib.Bool(o.Setup != ""))
+		lib.Bool(o.Setup != ""),
+		lib.Bool(!(in.Fin.Kind == "create_oc_slice" && in.Fin.Rule == "nothing" && !in.NoReturn)))
 }
 
 // ---- chain shapes ------------------------------------------------------------------------------
@@ -687,15 +754,50 @@ func genArgs(r *lib.Rng, edge bool) []Arg {
 	return []Arg{a}
 }
 
+var sessionOpts = []string{"", "", "", "skip_default_tx", "query_fields", "batch_size", "logger", "now_func", "no_nested_tx", "full_save_assoc", "propagate_unscoped"}
+var ctxOpts = []string{"", "", "session_ctx", "prepare"}
+
 func sessionEl(r *lib.Rng) Cel {
 	if r.Bool() {
-		return Cel{Kind: "session"}
+		return Cel{Kind: "session", Opt: lib.Pick(r, sessionOpts)}
 	}
-	return Cel{Kind: "ctx"}
+	return Cel{Kind: "ctx", Opt: lib.Pick(r, ctxOpts)}
 }
 
 // genStep draws one step. known=true forces a Session/WithContext after an Attrs/Assign (the shape
 // of the fixed finding clone-drops-attrs); otherwise session elements go to any chain position.
+// fixSelfClash: domain of slice statements — a caller-given key must not be the key the database assigns to
+// an earlier zero-key element of the same statement (max+1 at that moment), otherwise the caller's own
+// elements collide
+func fixSelfClash(state []Rec, vals []Rec) {
+	for tries := 0; tries < 20; tries++ {
+		maxk, assigned, clash := int64(0), map[int64]bool{}, -1
+		for _, row := range state {
+			if row.ID > maxk {
+				maxk = row.ID
+			}
+		}
+		for i, v := range vals {
+			if v.ID == 0 {
+				maxk++
+				assigned[maxk] = true
+			} else {
+				if assigned[v.ID] {
+					clash = i
+					break
+				}
+				if v.ID > maxk {
+					maxk = v.ID
+				}
+			}
+		}
+		if clash < 0 {
+			return
+		}
+		vals[clash].ID = 0
+	}
+}
+
 var lastSlice []Rec // what the previous save_slice step of this history handed back
 
 func genStep(r *lib.Rng, state []Rec, now int64, edge, known bool) Input {
@@ -737,34 +839,7 @@ func genStep(r *lib.Rng, state []Rec, now int64, edge, known bool) Input {
 			used[v.ID] = true
 			vals = append(vals, v)
 		}
-		// domain: a caller-given key must not be the key the database assigns to an earlier zero-key
-		// element of the same statement (max+1 at that moment) — otherwise the caller's own elements collide
-		for tries := 0; tries < 20; tries++ {
-			maxk, assigned, clash := int64(0), map[int64]bool{}, -1
-			for _, row := range state {
-				if row.ID > maxk {
-					maxk = row.ID
-				}
-			}
-			for i, v := range vals {
-				if v.ID == 0 {
-					maxk++
-					assigned[maxk] = true
-				} else {
-					if assigned[v.ID] {
-						clash = i
-						break
-					}
-					if v.ID > maxk {
-						maxk = v.ID
-					}
-				}
-			}
-			if clash < 0 {
-				break
-			}
-			vals[clash].ID = 0
-		}
+		fixSelfClash(state, vals)
 		in.Fin = Fin{Kind: "save_slice", Vals: vals}
 	case k < 17 && !known:
 		// Omit(cols...).Save(&v): stored, soft-deleted, missing and zero keys; zero-valued fields
@@ -779,7 +854,7 @@ func genStep(r *lib.Rng, state []Rec, now int64, edge, known bool) Input {
 				v.Email = ""
 			}
 		}
-		f := Fin{Kind: "save_omit", Val: &v, OmitSpell: lib.Pick(r, []string{"db", "field"})}
+		f := Fin{Kind: "save_omit", Val: &v, OmitSpell: lib.Pick(r, []string{"db", "field", "comma"})}
 		for _, c := range []string{"name", "age", "email", "updated_at"} {
 			if r.Chance(1, 3) {
 				f.Omits = append(f.Omits, c)
@@ -791,7 +866,7 @@ func genStep(r *lib.Rng, state []Rec, now int64, edge, known bool) Input {
 		in.Fin = f
 	case k < 25:
 		v := genValue(r, state, edge)
-		in.Fin = Fin{Kind: "save", Val: &v}
+		in.Fin = Fin{Kind: "save", Val: &v, PtrPtr: r.Chance(1, 4)}
 	case k < 50:
 		v := genValue(r, state, edge)
 		f := Fin{Kind: "create_oc", Val: &v, Target: true}
@@ -824,6 +899,29 @@ func genStep(r *lib.Rng, state []Rec, now int64, edge, known bool) Input {
 			k := int64(1 + r.Intn(3))
 			f.OCTarget, f.Target = &k, true
 		}
+		if r.Chance(1, 4) {
+			// the rule on a SLICE: Create(&slice) / CreateInBatches(&slice, n), distinct keys and zero keys
+			n := r.Range(2, 4)
+			used := map[int64]bool{}
+			vals := []Rec{v}
+			used[v.ID] = true
+			for i := 1; i < n; i++ {
+				w := genValue(r, state, edge)
+				if r.Chance(1, 3) {
+					w.ID = 0
+				}
+				if w.ID != 0 && used[w.ID] {
+					w.ID = 0
+				}
+				used[w.ID] = true
+				vals = append(vals, w)
+			}
+			fixSelfClash(state, vals)
+			f.Kind, f.Val, f.Vals = "create_oc_slice", nil, vals
+			if r.Bool() {
+				f.Batch = r.Range(1, 3)
+			}
+		}
 		in.Fin = f
 	default:
 		f := Fin{Kind: "foi"}
@@ -852,6 +950,16 @@ func genStep(r *lib.Rng, state []Rec, now int64, edge, known bool) Input {
 			els = append(els, Cel{Kind: "assign", Args: genArgs(r, edge)})
 		}
 		lib.Shuffle(r, els)
+		// the LAST condition of the chain may be given through Scopes(...) (scopes run when the finisher
+		// executes, after the chain's and the inline conditions: only the last one keeps the order)
+		if len(f.Inline) == 0 && r.Chance(1, 4) {
+			for i := len(els) - 1; i >= 0; i-- {
+				if els[i].Kind == "where" {
+					els[i].Via = "scope"
+					break
+				}
+			}
+		}
 		in.Chain = els
 		in.Fin = f
 	}
@@ -966,6 +1074,9 @@ func shape(in Input, o Obs) string {
 	if in.Fin.Kind == "save_omit" {
 		sb.WriteString(":" + strings.Join(in.Fin.Omits, ",") + in.Fin.OmitSpell)
 	}
+	if in.Fin.Kind == "create_oc_slice" {
+		fmt.Fprintf(&sb, ":%s%v b%d %s", in.Fin.Rule, in.Fin.Target, in.Fin.Batch, slicePattern(in))
+	}
 	if in.Fin.Kind == "create_oc" || in.Fin.Kind == "create_u" {
 		sb.WriteString(":" + in.Fin.Rule + fmt.Sprint(in.Fin.Target) + in.Fin.Val.Email)
 		if in.Fin.OCWhere != nil {
@@ -1021,7 +1132,7 @@ func nontrivial(in Input, o Obs) bool {
 		return true
 	case "save", "create_oc", "save_omit":
 		return in.Fin.Val.ID != 0 && findRow(in.Tbl, in.Fin.Val.ID) != nil
-	case "save_slice":
+	case "save_slice", "create_oc_slice":
 		p := slicePattern(in)
 		return strings.Contains(p, "z") && strings.ContainsAny(p, "sfd")
 	}
@@ -1185,6 +1296,6 @@ func main() {
 			}
 		}
 	}
-	out.Extra["rule"] = "a case is ONE step on a table of 0..n rows over keys 1..4 (+ rowid-assigned keys): Save(v) | Omit(subset of name,age,email,updated_at in column or field spelling).Save(v) on stored, soft-deleted, missing and zero keys with zero-valued fields | Save(&slice of 2-4 values mixing stored keys, fresh keys and zero keys in any order; the slice handed back is compared element by element and is saved again by a later step; RETURNING dialect) | Create+OnConflict{DoNothing, DoUpdates(subset of name,age,email,updated_at,deleted_at), UpdateAll}(v), optionally conditional (OnConflict.Where = stored age < k on DoUpdates/UpdateAll, OnConflict.TargetWhere = age < k; colliding rows on both sides of the condition) | the same rules, with and without explicit Columns=[id], on a stand-alone table with a second (partial) UNIQUE index on e-mails starting with 'u' and incoming rows whose e-mail is free, their own or held by another (live or soft-deleted) row | FirstOrInit | FirstOrCreate, preceded by a chain of Where(struct|map|raw 'age > ?') / Attrs / Assign (struct by value or by pointer, map in column or field spelling, key-value; 1-2 arguments) in any order with Session(&Session{}) / WithContext inserted at chain positions; steps are chained into histories of 6..12 steps on the evolving table with soft/hard deletions in between; v is fresh (key 0 or 1..4) or a previously stored row edited. Session/WithContext are inserted at EVERY chain position, also after Attrs/Assign (stream session-after-attrs forces that shape, the fixed finding clone-drops-attrs). Domain: at most one Attrs and one Assign per chain, key-value form alone, two-argument forms in column spelling, Attrs/Assign keys among name/age/email, type-correct values, one inline condition. distinct = distinct (finisher, rule+cols, collision kind, chain form, inline form, RowsAffected, writes, error, table size); non-trivial = the value's key collides with a stored row (Save/upsert) or the chain has a condition and a non-empty Attrs/Assign on a non-empty table (FirstOr*)."
+	out.Extra["rule"] = "a case is ONE step on a table of 0..n rows over keys 1..4 (+ rowid-assigned keys): Save(v) | Omit(subset of name,age,email,updated_at in column or field spelling).Save(v) on stored, soft-deleted, missing and zero keys with zero-valued fields | Create+OnConflict rule on a slice (Create(&slice) or CreateInBatches) | Save(&ptr) | Save(&slice of 2-4 values mixing stored keys, fresh keys and zero keys in any order; the slice handed back is compared element by element and is saved again by a later step; RETURNING dialect) | Create+OnConflict{DoNothing, DoUpdates(subset of name,age,email,updated_at,deleted_at), UpdateAll}(v), optionally conditional (OnConflict.Where = stored age < k on DoUpdates/UpdateAll, OnConflict.TargetWhere = age < k; colliding rows on both sides of the condition) | the same rules, with and without explicit Columns=[id], on a stand-alone table with a second (partial) UNIQUE index on e-mails starting with 'u' and incoming rows whose e-mail is free, their own or held by another (live or soft-deleted) row | FirstOrInit | FirstOrCreate, preceded by a chain of Where(struct|map|raw 'age > ?') / Attrs / Assign (struct by value or by pointer, map in column or field spelling, key-value; 1-2 arguments) in any order with Session / WithContext inserted at chain positions (Session with every result-neutral option: none, SkipDefaultTransaction, QueryFields, CreateBatchSize, Logger, NowFunc, DisableNestedTransaction, FullSaveAssociations, PropagateUnscoped; statement-cloning forms WithContext, Session{Context}, Session{PrepareStmt}); the last chain condition may come through Scopes(...); steps are chained into histories of 6..12 steps on the evolving table with soft/hard deletions in between; v is fresh (key 0 or 1..4) or a previously stored row edited. Session/WithContext are inserted at EVERY chain position, also after Attrs/Assign (stream session-after-attrs forces that shape, the fixed finding clone-drops-attrs). Domain: at most one Attrs and one Assign per chain, key-value form alone, two-argument forms in column spelling, Attrs/Assign keys among name/age/email, type-correct values, one inline condition. distinct = distinct (finisher, rule+cols, collision kind, chain form, inline form, RowsAffected, writes, error, table size); non-trivial = the value's key collides with a stored row (Save/upsert) or the chain has a condition and a non-empty Attrs/Assign on a non-empty table (FirstOr*)."
 	lib.Must(out.Flush())
 }
